@@ -81,7 +81,11 @@ def constraints(G, pop, meta):
     bands = {r["band"] for r in pop["physical_filter"]}
     for d in G:
         if d == "band":
-            cons.append((("band",), {(b,) for b in bands}))
+            # `band` has no table of its own: its values are the bands of the physical_filter records.  A group in which another
+            # dimension carries the band (subfilter requires it, physical_filter implies it) takes it from those records; a
+            # subfilter record whose band no physical_filter has (there is no foreign key) is still a stored record of its group
+            if not ({"subfilter", "physical_filter"} & G):
+                cons.append((("band",), {(b,) for b in bands}))
             continue
         cols = tuple(meta[d]["required"]) + tuple(meta[d]["implied"])
         cons.append((cols, {tuple(val(d, r, c) for c in cols) for r in pop[d]}))
@@ -439,6 +443,12 @@ def spatial_histories(ctx, model_ok, tmp):
             if kind == "ins" and nb > 1 and rng.random() < 0.1:
                 keys[-1] = keys[0]
             batch = [(k, rng.choice([None] + list(polys))) for k in keys]
+            with_region = sorted(k for k, r in final[el].items() if r)
+            if not corpus and kind in ("repl", "sync1") and with_region and rng.random() < 0.35:
+                # every record of the call loses its region: the call has overlap rows to delete and none to write
+                keys = rng.sample(with_region, min(len(with_region), 1 if kind == "sync1" else rng.choice([1, 2])))
+                batch = [(k, None) for k in keys]
+                ctx.count("spatial:all-regions-to-null")
             if corpus:
                 el, kind, batch = corpus[step]
                 keys = [k for k, _ in batch]
@@ -448,7 +458,7 @@ def spatial_histories(ctx, model_ok, tmp):
                 k0 = rng.choice(sorted(final[el]))
                 if k0 not in keys:
                     batch[0] = (k0, rng.choice([r for r in polys if r != final[el][k0]]))
-            if not corpus and kind.startswith("sync") and final[el] and rng.random() < 0.6:
+            if not corpus and kind.startswith("sync") and final[el] and rng.random() < 0.6 and not all(r is None for _, r in batch):
                 k0 = rng.choice(sorted(final[el]))
                 batch = [(k0, rng.choice([final[el][k0], None] + list(polys)))]
             spelled = ",".join(f"{k}:{r if r else '-'}" for k, r in batch)
